@@ -9,12 +9,14 @@ Invariants over exhaustively enumerated adversarial inputs; no reference model:
 
 import copy
 import datetime
+import decimal
 import itertools
 import json
 import math
 import os
 import re
 import resource
+import uuid
 
 from ..common import HarnessError, canon, has_host, is_failure_line, load_impl
 from ..engine.shard import Acc, Family, split
@@ -94,6 +96,10 @@ def selfarr():
     return s
 
 
+def odd_dict():
+    return {(0, 0): 'o', 1: 'x', 'k': 'y'}
+
+
 def pool_a():
     """Adversarial operand pool (labels are stable identifiers). Built fresh: it holds mutable members."""
     return [
@@ -104,6 +110,8 @@ def pool_a():
         ('date', D_DATE), ('naive', D_NAIVE), ('aware+2', D_AWARE_P2), ('aware-5', D_AWARE_M5), ('aware-later', D_AWARE_LATER),
         # fractional exponents on both sides of 1 and -1, and two more negative bases (|b| < 1 and |b| huge)
         ('1.5', 1.5), ('-1.5', -1.5), ('2.5', 2.5), ('-0.5', -0.5), ('-0.25', -0.25), ('-1e+10', -1e10),
+        # a host dict that is not JSON-like: a tuple key and mixed key types (its values are BareScript values)
+        ('{(0,0):o,1:x,k:y}', odd_dict()),
     ]
 
 
@@ -112,6 +120,7 @@ def pool_lib():
         ('null', None), ('true', True), ('0', 0), ('1', 1.0), ('-1', -1), ('1000', 1000), ('nan', math.nan), ("''", ''), ("'a'", 'a'),
         ('dt9999', DT_MAX), ("[inf,'a']", [math.inf, 'a']), ('selfarr', selfarr()), ('{a:1}', {'a': 1}), ('fnRaise', cb_raise), ('re', re.compile('a')),
         ('date', D_DATE), ('aware+2', D_AWARE_P2), ('aware-later', D_AWARE_LATER), ('[dt kinds]', [D_NAIVE, D_AWARE_LATER, D_DATE, D_AWARE_P2, DT_MAX]),
+        ('{(0,0):o,1:x,k:y}', odd_dict()),
     ]
 
 
@@ -119,8 +128,8 @@ def pool_lib8():
     return [('null', None), ('0', 0), ('1', 1.0), ('nan', math.nan), ("'a'", 'a'), ('selfarr', selfarr()), ('{a:1}', {'a': 1}), ('fnRaise', cb_raise)]
 
 
-N_A = 37
-N_LIB = 19
+N_A = 38
+N_LIB = 20
 N_LIB8 = 8
 
 
@@ -155,7 +164,11 @@ def run_guarded(thunk):
     except (bs.BareScriptRuntimeError, bs.BareScriptParserError) as exc:
         return ('doc', type(exc).__name__)
     except Exception as exc:  # pylint: disable=broad-exception-caught
-        return ('host-exc', type(exc).__name__, str(exc)[:120])
+        try:
+            text = str(exc)[:120]
+        except Exception:  # pylint: disable=broad-exception-caught
+            text = '<str() of the exception raises>'
+        return ('host-exc', type(exc).__name__, text)
 
 
 def value_kind(v):
@@ -171,13 +184,14 @@ def value_kind(v):
     return type(v).__name__
 
 
-def check_outcome(out, case, acc, what):
-    """The containment invariant. Returns True if it holds."""
+def check_outcome(out, case, acc, what, strict=True):
+    """The containment invariant. Returns True if it holds. strict=False: the inputs themselves hold host values, which
+    a result may hand back - only the exception half of the invariant is checked."""
     if out[0] == 'host-exc':
         acc.violation(case, 'a BareScript value, BareScriptRuntimeError or BareScriptParserError', f'{out[1]}: {out[2]}',
                       f'{what}: the host exception {out[1]} escapes')
         return False
-    if out[0] == 'value':
+    if out[0] == 'value' and strict:
         try:
             host = has_host(canon(out[1]))
         except RecursionError:
@@ -383,7 +397,10 @@ def same_value(a, b):
 
 def check_lib(case, acc):
     bs, funcs = impl()
-    pool = pool_lib() if case['pool'] == 'P19' else pool_lib8()
+    pool = pool_lib() if case['pool'] == 'P20' else pool_odd() if case['pool'] == 'ODD' else pool_lib8()
+    debug = case.get('debug', True)
+    # results may legitimately hand back a host value that came in with the arguments (the ODD pool; the keys of the odd dict)
+    strict = case['pool'] != 'ODD' and not any(pool[i][0].startswith('{(0,0)') for i in case['idx'])
     fid = case['fn']
     name, _, mode = fid.partition(':')
     idx = case['idx']
@@ -395,14 +412,14 @@ def check_lib(case, acc):
     args = copy.deepcopy(base)
     logs = []
     g = {f'v{i}': a for i, a in enumerate(args)}
-    options = {'globals': g, 'logFn': logs.append, 'debug': True, 'maxStatements': 1000}
+    options = {'globals': g, 'logFn': logs.append, 'debug': debug, 'maxStatements': 1000}
     if mode:
         options['fetchFn'] = FETCHERS[mode]
     source, model = lib_script(name, len(idx))
     out = run_guarded(lambda: bs.execute_script(model, options))
     acc.evals += 1
     case['source'] = source
-    if not check_outcome(out, case, acc, what):
+    if not check_outcome(out, case, acc, what, strict):
         return 'violation'
 
     # (2) independently: does the call itself fail?  (direct call of the function object, fresh copy, no wrapper)
@@ -418,6 +435,8 @@ def check_lib(case, acc):
     failed = direct[0] == 'host-exc' or (direct[0] == 'doc' and direct[1] != 'BareScriptRuntimeError')
 
     nfail = sum(1 for line in logs if is_failure_line(line, name)) - sum(1 for line in own if is_failure_line(line, name))
+    if not debug:
+        nfail = 1 if failed else 0      # nothing is demanded of the log when debug is off
     if out[0] == 'doc':
         return 'doc:' + out[1]
     if not logs or logs[-1] != SENTINEL:
@@ -457,7 +476,7 @@ def fam_lib(arg):
         for arity in range(4):
             for idx in itertools.product(range(N_LIB), repeat=arity):
                 acc.cases += 1
-                kind = check_lib({'fn': fid, 'pool': 'P19', 'idx': list(idx)}, acc)
+                kind = check_lib({'fn': fid, 'pool': 'P20', 'idx': list(idx)}, acc)
                 acc.outcome((fid, kind))
                 if not sampled and arity == 2 and kind.startswith('failed:') and idx[0] >= 5:
                     sampled = True
@@ -1206,6 +1225,231 @@ def fam_messages(arg):
 
 
 # ----------------------------------------------------------------------------------------------------------------
+# Family optkeys: every documented option key absent / present with None / present with a value, crossed
+# ----------------------------------------------------------------------------------------------------------------
+
+def _identity_url(url):
+    return url
+
+
+def _opt_fetch(request):
+    url = request.get('url', '')
+    return 'incVal = 1\n' if isinstance(url, str) and url.endswith('.bare') else 'text'
+
+
+ABSENT = '<absent>'
+OPT_KEYS = [
+    ('urlFn', [ABSENT, None, 'identity function']),
+    ('fetchFn', [ABSENT, None, 'function']),
+    ('logFn', [ABSENT, None, 'function']),
+    ('systemPrefix', [ABSENT, None, 'sys/']),
+    ('globals', [ABSENT, 'empty', 'populated']),
+    ('debug', [ABSENT, False, None, True]),
+    ('maxStatements', [ABSENT, 0, 1000]),       # documented as an int: None is a malformed option value, outside the property
+    ('statementCount', [ABSENT, None, 5]),
+]
+OPT_PROGRAMS = [
+    ('non-system include', 'exec', "include 'lib.bare'\nreturn incVal\n"),
+    ('system include', 'exec', 'include <lib.bare>\nreturn incVal\n'),
+    ('system and non-system include', 'exec', "include <lib.bare>\ninclude 'two.bare'\nreturn incVal\n"),
+    ('include inside a function', 'exec', "function ff():\n    include 'lib.bare'\n    return incVal\nendfunction\nreturn ff()\n"),
+    ('systemFetch', 'exec', "rr = systemFetch('u')\nr2 = systemFetch(arrayNew('u', objectNew('url', 'v')))\nreturn arrayNew(rr, r2)\n"),
+    ('failing call', 'exec', 'rr = arrayGet(null, 0)\ndone = 1\nreturn rr\n'),
+    ('systemLog and systemLogDebug', 'exec', "systemLog('m')\nsystemLogDebug('m')\nreturn systemGlobalGet('xx')\n"),
+    ('failing built-in through evaluate_expression', 'expr', "indexOf(1) + len('a')"),
+]
+
+
+def opt_configs():
+    return list(itertools.product(*(range(len(alts)) for _, alts in OPT_KEYS)))
+
+
+def build_options(choice, logs):
+    opts = {}
+    for (key, alts), c in zip(OPT_KEYS, choice):
+        val = alts[c]
+        if val is ABSENT:
+            continue
+        if key == 'urlFn' and val is not None:
+            val = _identity_url
+        elif key == 'fetchFn' and val is not None:
+            val = _opt_fetch
+        elif key == 'logFn' and val is not None:
+            val = logs.append
+        elif key == 'globals':
+            val = {} if val == 'empty' else {'incVal': 0, 'xx': [1]}
+        opts[key] = val
+    return opts
+
+
+def opt_program(pix):
+    key = ('optprog', pix)
+    if key not in _CACHE:
+        bs = impl()[0]
+        _, entry, text = OPT_PROGRAMS[pix]
+        _CACHE[key] = bs.parse_script(text) if entry == 'exec' else bs.parse_expression(text)
+    return _CACHE[key]
+
+
+def check_optkeys(case, acc):
+    bs = impl()[0]
+    label, entry, text = OPT_PROGRAMS[case['p']]
+    logs = []
+    opts = build_options(case['choice'], logs)
+    described = {key: repr(alts[c]) for (key, alts), c in zip(OPT_KEYS, case['choice']) if alts[c] is not ABSENT}
+    model = opt_program(case['p'])
+    if entry == 'exec':
+        out = run_guarded(lambda: bs.execute_script(model, opts))
+    else:
+        out = run_guarded(lambda: bs.evaluate_expression(model, opts))
+    acc.evals += 1
+    case = dict(case, program=label, options=described, source=text)
+    if not check_outcome(out, case, acc, f'program "{label}" with options {described}'):
+        return 'violation'
+    return out[0] + ':' + (value_kind(out[1]) if out[0] == 'value' else out[1])
+
+
+def fam_optkeys(arg):
+    acc = Acc('optkeys')
+    configs = opt_configs()
+    for p, lo, hi in arg:
+        for choice in configs[lo:hi]:
+            acc.cases += 1
+            kind = check_optkeys({'p': p, 'choice': list(choice)}, acc)
+            acc.outcome((p, kind))
+            if kind.startswith('doc'):
+                acc.nontrivial += 1
+        if lo == 0:
+            acc.sample({'program': OPT_PROGRAMS[p][0], 'options': {'fetchFn': 'function', 'urlFn': None}, 'outcome':
+                        check_optkeys({'p': p, 'choice': [1, 2, 0, 0, 0, 0, 0, 0]}, Acc('optkeys'))})
+    return acc.result()
+
+
+def optkeys_shards():
+    n = len(opt_configs())
+    step = (n + 3) // 4
+    return [[(p, lo, min(n, lo + step))] for p in range(len(OPT_PROGRAMS)) for lo in range(0, n, step)]
+
+
+# ----------------------------------------------------------------------------------------------------------------
+# Family odd: host containers that are not JSON-like, as wrong-typed arguments and as operands, debug on and off
+# ----------------------------------------------------------------------------------------------------------------
+
+def unknown_values():
+    return [('Decimal', decimal.Decimal('1.5')), ('set', {1, 2}), ('bytes', b'by'), ('object', object()), ('UUID', uuid.UUID(int=1)), ('tuple', (1, 2))]
+
+
+def odd_values():
+    """(label, value): dicts whose keys are not strings; unknown host types bare, and inside lists/dicts at depth 1 and 2."""
+    out = [('{(0,0):o}', {(0, 0): 'o'}), ('{1:one,two:2}', {1: 'one', 'two': 2}), ('{None:1,a:2}', {None: 1, 'a': 2}), ('{(0,0):o,1:x,k:y}', odd_dict())]
+    for lab, u in unknown_values():
+        out.append((lab, u))
+        out.append((f'[{lab}]', [u]))
+        out.append((f'{{a:{lab}}}', {'a': u}))
+        out.append((f'[[{lab}]]', [[u]]))
+        out.append((f'{{a:{{b:{lab}}}}}', {'a': {'b': u}}))
+        out.append((f'[{{a:{lab}}}]', [{'a': u}]))
+    return out
+
+
+ODD_PARTNERS = [('null', None), ("'a'", 'a'), ('[1]', [1]), ('{a:1}', {'a': 1})]
+N_ODD = 4 + 6 * 6
+
+
+def pool_odd():
+    return ODD_PARTNERS + odd_values()
+
+
+def odd_lib_tuples():
+    np_ = len(ODD_PARTNERS)
+    out = []
+    for o in range(np_, np_ + N_ODD):
+        out.append([o])
+        for x in range(np_):
+            out.append([o, x])
+            out.append([x, o])
+    return out
+
+
+def fam_oddlib(arg):
+    acc = Acc('oddlib')
+    tuples = odd_lib_tuples()
+    for fid in arg:
+        for debug in (True, False):
+            for idx in tuples:
+                acc.cases += 1
+                kind = check_lib({'fn': fid, 'pool': 'ODD', 'idx': idx, 'debug': debug}, acc)
+                acc.outcome((fid, debug, kind))
+        acc.sample({'call': fid, 'args': [pool_odd()[5][0]], 'debug': True, 'outcome': check_lib({'fn': fid, 'pool': 'ODD', 'idx': [5], 'debug': True}, Acc('oddlib'))})
+    return acc.result()
+
+
+ODD_OP_PARTNERS = [("'row: '", 'row: '), ('1', 1.0), ('null', None), ('{a:1}', {'a': 1}), ('itself', None)]
+
+
+def check_oddops(case, acc):
+    bs = impl()[0]
+    odd = odd_values()
+    lab, val = odd[case['o']]
+    val = copy.deepcopy(val)
+    op = case['op']
+    if case['side'] == 'unary':
+        expr_text = f'{op}va'
+        g = {'va': val}
+        labels = [lab]
+    else:
+        plab, pval = ODD_OP_PARTNERS[case['partner']]
+        pval = copy.deepcopy(odd[case['o']][1]) if plab == 'itself' else copy.deepcopy(pval)
+        g = {'va': val, 'vb': pval} if case['side'] == 'left' else {'va': pval, 'vb': val}
+        labels = [lab, plab] if case['side'] == 'left' else [plab, lab]
+        expr_text = f'va {op} vb'
+    logs = []
+    options = {'globals': g, 'logFn': logs.append, 'debug': case['debug'], 'maxStatements': 1000}
+    if case['ctx'] == 'expr':
+        expr = bs.parse_expression(expr_text)
+        out = run_guarded(lambda: bs.evaluate_expression(expr, options, None, False))
+    else:
+        source = f"rr = {expr_text}\nsystemLog('{SENTINEL}')\nreturn rr\n"
+        out = run_guarded(lambda: bs.execute_script(bs.parse_script(source), options))
+    acc.evals += 1
+    case = dict(case, labels=labels, expression=expr_text)
+    what = f'{expr_text} on ({", ".join(labels)}) in context {case["ctx"]}, debug={case["debug"]}'
+    if not check_outcome(out, case, acc, what, strict=False):
+        return 'violation'
+    if out[0] == 'value' and case['ctx'] == 'top' and (not logs or logs[-1] != SENTINEL):
+        acc.violation(case, 'the statement after the operation runs', [str(x)[:80] for x in logs[-3:]], f'{what}: execution did not continue')
+        return 'violation'
+    if out[0] == 'value' and out[1] is None:
+        acc.nontrivial += 1
+    return out[0] + ':' + (value_kind(out[1]) if out[0] == 'value' else out[1])
+
+
+def oddops_cases_of(o):
+    cases = []
+    for ctx in ('expr', 'top'):
+        for debug in (True, False):
+            for op in BIN_OPS:
+                for partner in range(len(ODD_OP_PARTNERS)):
+                    for side in ('left', 'right'):
+                        cases.append({'o': o, 'op': op, 'partner': partner, 'side': side, 'ctx': ctx, 'debug': debug})
+            for op in UN_OPS:
+                cases.append({'o': o, 'op': op, 'side': 'unary', 'ctx': ctx, 'debug': debug})
+    return cases
+
+
+def fam_oddops(arg):
+    acc = Acc('oddops')
+    for o in arg:
+        for case in oddops_cases_of(o):
+            acc.cases += 1
+            kind = check_oddops(case, acc)
+            acc.outcome((case['op'], case['side'], case.get('partner'), kind))
+        acc.sample({'operand': odd_values()[o][0], 'expression': "'row: ' + v", 'outcome':
+                    check_oddops({'o': o, 'op': '+', 'partner': 0, 'side': 'right', 'ctx': 'top', 'debug': True}, Acc('oddops'))})
+    return acc.result()
+
+
+# ----------------------------------------------------------------------------------------------------------------
 # Family pow_int (guarded)
 # ----------------------------------------------------------------------------------------------------------------
 
@@ -1409,6 +1653,17 @@ def families(tier):
                f'100 kB, ValueArgsError) x {len(MSG_REACHES)} reaches (by name, as arrayIndexOf callback, inside a script function) x {len(MSG_CONFIGS)} '
                f'debug/logFn configurations x execute_script/evaluate_expression, + the empty-message MemoryError of {MSG_LIBRARY}',
                expected=len(exception_shapes()) * len(MSG_REACHES) * len(MSG_CONFIGS) * 2 + len(MSG_CONFIGS) * 2),
+        Family('optkeys', fam_optkeys, optkeys_shards(),
+               f'{len(OPT_PROGRAMS)} programs (includes, systemFetch, failing call, log functions, evaluate_expression) x the full product of '
+               + ' x '.join(f'{k} in {[("absent" if a is ABSENT else a) for a in alts]}' for k, alts in OPT_KEYS),
+               expected=len(OPT_PROGRAMS) * len(opt_configs())),
+        Family('oddlib', fam_oddlib, [[f] for f in fids],
+               f'{len(fids)} functions x {{debug on, off}} x {len(odd_lib_tuples())} argument tuples (odd), (odd, x), (x, odd) with odd from {N_ODD} host containers '
+               'that are not JSON-like (non-string keys; Decimal/set/bytes/object()/UUID/tuple bare and at depth 1 and 2) and x from 4 ordinary values',
+               expected=len(fids) * 2 * len(odd_lib_tuples())),
+        Family('oddops', fam_oddops, split(list(range(N_ODD)), 20),
+               f'{N_ODD} odd host containers x ({len(BIN_OPS)} binary operators x {len(ODD_OP_PARTNERS)} partners x both sides + {len(UN_OPS)} unary) x '
+               'evaluate_expression / script statement x debug on / off', expected=N_ODD * len(oddops_cases_of(0))),
         Family('pow_int', fam_pow_int, [[c] for c in pows], f'{len(pows)} int ** int cases with astronomically large exact result (the pairs the family ops '
                f'delegates, x {len(CONTEXTS)} contexts, + 1 pure script), each in a forked child under a {POW_CPU_S} s CPU / {POW_MEM >> 20} MiB guard',
                expected=len(pows)),
@@ -1419,12 +1674,13 @@ def families(tier):
 
 
 _CHECKS = {'ops': check_ops, 'lib': check_lib, 'programs': check_programs, 'models': check_models, 'pow_int': check_pow_int, 'growth': check_growth, 'chains': check_chains,
-           'options': check_options, 'reach': check_reach, 'messages': check_messages}
+           'options': check_options, 'reach': check_reach, 'messages': check_messages,
+           'optkeys': check_optkeys, 'oddlib': check_lib, 'oddops': check_oddops}
 
 
 def replay(family, case):
     acc = Acc(family)
-    case = {k: v for k, v in case.items() if k not in ('labels', 'source', 'label', 'template', 'options', 'text', 'target', 'failure', 'exception', 'reached')}
+    case = {k: v for k, v in case.items() if k not in ('labels', 'source', 'label', 'template', 'options', 'text', 'target', 'failure', 'exception', 'reached', 'program', 'expression')}
     _CHECKS[family](case, acc)
     res = acc.result()
     return {'differs': bool(res['nviol'] or res['nknown']), 'violations': res['violations'] + res['known_violations']}
